@@ -51,7 +51,7 @@ DESCR = {
 
 
 def jobs_for(tier):
-    cap = 230 if tier == "quick" else 1500
+    cap = 400 if tier == "quick" else 1500
     base = dict(files=["gen_array.c", os.path.join(HK, "C26_array.c")], unwind=26, timeout=cap, sweep=(), extra=["--object-bits", "12"])
     jobs = []
 
